@@ -21,6 +21,9 @@ CONFIG = {
             # error-algebra part: the same histories as C04, with spans compared
             {"name": "c04", "n": {"quick": 20000, "thorough": 400000},
              "trivial": lambda case, ans: "(span " not in case},
+            # spans of errors produced by built-in conversions on parsed source text
+            {"name": "c14", "n": {"quick": 10000, "thorough": 200000}, "trivial": lambda case, ans: not ans.startswith("(err")},
+            {"name": "c13", "n": {"quick": 40000, "thorough": 40000}, "trivial": lambda case, ans: not ans.startswith("(err")},
         ],
         "rule": "error histories with with_span applied at random nodes (bundles and leaves) in random order; non-trivial = at least one with_span in the history; distinct by case text",
         "assumptions": ["spans are byte ranges of tokens parsed from source text (proc-macro2 span-locations)"],
@@ -56,6 +59,26 @@ CONFIG = {
         ],
         "rule": "grid of 7 inner targets x 10 wrappers x 7x10 two-level compositions (567 types), each with from_none and random picks from 50 fixed meta forms (word / list incl. malformed bodies / name-value literal / name-value expression); distinct by case text",
         "assumptions": ["inner targets so far: bool, u8, i64, String, char, (), Flag (syntax-typed and derived inners are added with C13/C01)"],
+    },
+    "C13": {
+        "lean_modules": ["Darling.Props.C13"],
+        "streams": [
+            {"name": "c13", "n": {"quick": 40000, "thorough": 40000},
+             "trivial": lambda case, ans: False},
+        ],
+        "rule": "exhaustive: all 54 syntax-valued implementors (regenerated macro invocation lists) x 518 item forms (98 values from a grammar of paths / identifiers incl. raw and keywords / expressions / types / visibilities / where-predicates / literal arrays, each bare, quoted and as list body, plus 13 literal spellings; every name-value form also wrapped in an invisible group) + from_none; distinct by case text",
+        "assumptions": ["syn's grammar parsers on string contents and syn's printer are external: oracle rows carry syn's own verdict and printed tokens for every string literal in the input"],
+        "partial": "relative to syn's print/parse round trip (hypothesis of the agreement theorem, observed by the correspondence only)",
+    },
+    "C14": {
+        "lean_modules": ["Darling.Props.C14"],
+        "streams": [
+            {"name": "c14", "n": {"quick": 30000, "thorough": 600000},
+             "trivial": lambda case, ans: "(mlist (path false (\"m\") true \"m\" 0 1) ()" in case},
+        ],
+        "project": no_spans,
+        "rule": "5 map instantiations x 6 value types (bool, u8, String, Expr, nested map, Option<u8>) x random item lists of length 0..12: half built valid for the map type (distinct acceptable keys, acceptable values, <= 1 injected mistake), half free (key pool 1..10 incl. multi-segment / global / raw / generic keys, literal items, bad values); non-trivial = non-empty list; distinct by case text",
+        "assumptions": ["element conversions do not panic (NoPanic hypothesis of the theorem; true of every built-in by C07)"],
     },
     "C15": {
         "lean_modules": ["Darling.Props.C15"],
